@@ -23,7 +23,10 @@ use prost::{DecodeError, Message};
 use crate::proto::command::ListenersCount;
 
 pub const MAX_FDS_OUT: usize = 200;
-pub const MAX_BYTES_OUT: usize = 4096;
+/// Size of the buffer receiving the listener manifest. It must hold `MAX_FDS_OUT`
+/// length-delimited socket addresses: the longest `SocketAddr` rendering (scoped IPv6
+/// with port) is 58 bytes, plus 2 bytes of protobuf framing per entry.
+pub const MAX_BYTES_OUT: usize = MAX_FDS_OUT * 64;
 
 #[derive(thiserror::Error, Debug)]
 pub enum ScmSocketError {
